@@ -5,13 +5,13 @@ cd $W || exit 2
 export CARGO_NET_OFFLINE=true
 OUT=/tmp/confirm-$P$SUF.log; : > $OUT
 echo "== patch applies to HEAD cleanly?" >> $OUT
-git stash -q; git apply --check DELIVER/patch.diff >> $OUT 2>&1 && echo "apply-check ok" >> $OUT; 
+git checkout -q -- src; git apply --check DELIVER/patch.diff >> $OUT 2>&1 && echo "apply-check ok" >> $OUT; 
 echo "== demo on ORIGINAL" >> $OUT
 cp DELIVER/demo_$L.rs tests/demo_$L.rs 2>/dev/null
-cargo test --offline --test demo_$L 2>&1 | grep -E "^test result|^test .*(ok|FAILED)|error" | head -20 >> $OUT
-git checkout -q -- . ; git stash pop -q
+cargo test --offline $FEAT --test demo_$L 2>&1 | grep -E "^test result|^test .*(ok|FAILED)|error" | head -20 >> $OUT
+git checkout -q -- src; git apply DELIVER/patch.diff
 echo "== demo with PATCH" >> $OUT
-cargo test --offline --test demo_$L 2>&1 | grep -E "^test result|^test .*(ok|FAILED)|error" | head -20 >> $OUT
+cargo test --offline $FEAT --test demo_$L 2>&1 | grep -E "^test result|^test .*(ok|FAILED)|error" | head -20 >> $OUT
 echo "== full suite with PATCH (excluding the demo)" >> $OUT
 mv tests/demo_$L.rs /tmp/demo_$L$SUF.rs.keep
 cargo test --offline --no-fail-fast 2>&1 | grep -E "^test result|FAILED|failed" | sort | uniq -c | sort -rn | head -20 >> $OUT
